@@ -451,4 +451,33 @@ theorem dropped_only_by_own_fault_any (ss : Streams) (env : Nat → Env) (order 
       rw [hle] at this
       exact this
 
+/-- … and whatever is forwarded comes from a substream that exists and was polled in this call. -/
+theorem selectPoll_item_any (ss : Streams) (env : Nat → Env) (order : List Nat) (sid m : Nat) :
+    (selectPoll ss env order).2 = some (sid, m) → sid ∈ order ∧ (ss.lookup sid).isSome = true := by
+  fun_induction selectPoll ss env order
+  case case1 => intro h; cases h
+  case case2 ih =>
+    intro h
+    obtain ⟨h1, h2⟩ := ih h
+    exact ⟨List.mem_cons_of_mem _ h1, h2⟩
+  case case3 ss env sid' order s0 hl s' m' hp =>
+    intro h
+    simp only [Option.some.injEq, Prod.mk.injEq] at h
+    obtain ⟨rfl, rfl⟩ := h
+    exact ⟨List.mem_cons_self, by rw [hl]; rfl⟩
+  case case4 ss env sid' order s0 hl s' hp ih =>
+    intro h
+    obtain ⟨h1, h2⟩ := ih h
+    refine ⟨List.mem_cons_of_mem _ h1, ?_⟩
+    by_cases he : sid = sid'
+    · subst he; rw [lookup_remove_self] at h2; cases h2
+    · rw [lookup_remove_ne _ _ _ he] at h2; exact h2
+  case case5 ss env sid' order s0 hl s' hp ih =>
+    intro h
+    obtain ⟨h1, h2⟩ := ih h
+    refine ⟨List.mem_cons_of_mem _ h1, ?_⟩
+    by_cases he : sid = sid'
+    · subst he; rw [hl]; rfl
+    · rw [lookup_setS_ne _ _ _ _ he] at h2; exact h2
+
 end Beetswap.Proofs.Inbound
